@@ -70,8 +70,8 @@ theorem C18_leaf_Drift (c : S_SystemClock) (d : Int64) :
   · exact C18_leaf_Duration _
 
 /-- the unknown-drift branch and the proportional branch both occur -/
-example : (clocks_SystemClock_Drift { drift := F64.ofInt 0, epoch := 0 } 1000000000).toInt = 9223372036854775807 ∧
-    (clocks_SystemClock_Drift { drift := F64.ofConst 1 1000, epoch := 0 } 2000000000).toInt = 2000000 := by
+example : (clocks_SystemClock_Drift { drift := F64.ofInt 0, epoch := 0, adjustment := none } 1000000000).toInt = 9223372036854775807 ∧
+    (clocks_SystemClock_Drift { drift := F64.ofConst 1 1000, epoch := 0, adjustment := none } 2000000000).toInt = 2000000 := by
   decide +kernel
 
 end ScionTime.LeafTieC18
